@@ -9,6 +9,12 @@ TB = "CPython 3.12, crosshair-tool 0.0.110, z3 5.1; the import shim of lib/repo_
 
 # id -> (category, technique, text, note, design_ref, engine)
 CHECKS = {
+    "C29": ("model_checking",
+            "CrossHair/z3 symbolic execution of the real wrap() on symbolic strings, and solver-enumerated geometry cases through the real DiagnosticsRenderer whose output is parsed back and compared with source text and span",
+            "wrap(): every string of length <=3/4 over {a,b,space,newline,-} with widths 1..3 is symbolic: total, words preserved in order, no line over the width, indents do not move breaks. Renderer: all indentations 0..20 of span and context lines "
+            "(both sides of the 12-column rule), offsets, widths, 1/2/4-line spans, primary/secondary, 5 label and 5 message texts, child with/without span: true line numbers, one common removed indentation, markers exactly under the spanned columns, all words in order. "
+            "The renderer cases are str-shaped, so each path is one concrete case (stated in the evidence).",
+            TB + "; spans start on and end after a non-blank character", "DESIGN.md §5 C29", "E1"),
     "C10": ("model_checking",
             "real check() with the iteration order of every set inside the compiler chosen by the solver (import-hook AST rewriting of the current source; CrossHair/z3 enumerates the order decisions); outcome compared with the canonical-order outcome",
             "Restricted to set-iteration order in the front end: all modules of guppylang_internals are recompiled from source so that for/comprehension/iter/list/tuple/star over a set and set.pop() ask a controller; "
